@@ -155,7 +155,7 @@ def gen_history(rng, profile='c01', nops=80, cfg=None, heavy=None):
                 ops.append('reopen'); live_snaps = []; ops.append('layout')
         elif o == 'repair':
             if not open_iters:
-                ops.append('repair %d' % rng.below(4)); live_snaps = []
+                ops.append('repair %d' % rng.below(5)); live_snaps = []
                 for k in keys: ops.append('get %s -' % khex(k))
                 ops.append('scan -'); ops.append('layout')
         elif o == 'backup':
